@@ -20,7 +20,7 @@ import core
 from ser import rat, q
 
 LEAN_MODULE = "Optyx.Props.C08b"
-EXTRA_MODULES = ["Optyx.Props.PinsC08", "Optyx.Props.StateTie"]   # transcription anchors (harness/source_pins.py)
+EXTRA_MODULES = ["Optyx.Props.PinsC08", "Optyx.Props.StateTie", "Optyx.Props.LPFastTie"]   # transcription anchors (harness/source_pins.py)
 THEOREMS = [
     "Optyx.Props.C08.lp_end_to_end",
     "Optyx.Props.C08.lp_pipeline_faithful",
@@ -30,6 +30,9 @@ THEOREMS = [
     "Optyx.Props.Glue.lpRows_table",
     "Optyx.Props.Glue.lpExtract_text",
     "Optyx.Props.StateTie.edits_are_source",
+    "Optyx.Props.LPFastTie.fastBinop_eq",
+    "Optyx.Props.LPFastTie.extractAll_eq",
+    "Optyx.Props.LPFastTie.aligned_iff",
     "Optyx.Props.PinsC08.anchors",
 ]
 ASSUMPTIONS = [
